@@ -362,6 +362,47 @@ def tryIntoScalar (m : Matrix α) : Outcome (Option α) :=
     | [] => .panic .unwrap
   else .ok none
 
+/-! ### row / column / diagonal getters (iterators.rs: `RowIterator`, `ColumnIterator`, `DiagonalIterator`) -/
+
+/-- the items an iterator collects through `get_reference_unchecked(row, column).clone()` along a
+    list of positions.  An access outside the storage is undefined behaviour in the real code; the
+    `verif-hooks` monitor turns it into a panic of kind `hook`, which is how it is modelled. -/
+def collectUnchecked (m : Matrix α) : List (Nat × Nat) → Outcome (List α)
+  | [] => .ok []
+  | (r, c) :: rest =>
+    match m.data[m.getIndex r c]? with
+    | none => .panic .hook
+    | some x =>
+      match collectUnchecked m rest with
+      | .panic k => .panic k
+      | .ok xs => .ok (x :: xs)
+
+/-- `row_iter(row).collect()`: `assert!(index_is_valid(row, 0))`, then the columns `0..columns` -/
+def rowIter (m : Matrix α) (row : Nat) : Outcome (List α) :=
+  if row < m.rows ∧ 0 < m.columns then
+    collectUnchecked m ((List.range m.columns).map fun c => (row, c))
+  else .panic .explicit
+
+/-- `column_iter(column).collect()`: `assert!(index_is_valid(0, column))`, then the rows `0..rows` -/
+def columnIter (m : Matrix α) (column : Nat) : Outcome (List α) :=
+  if 0 < m.rows ∧ column < m.columns then
+    collectUnchecked m ((List.range m.rows).map fun r => (r, column))
+  else .panic .explicit
+
+/-- `diagonal_iter().collect()`: the positions `(i, i)` for `i` in `0..min(rows, columns)` -/
+def diagonalIter (m : Matrix α) : Outcome (List α) :=
+  collectUnchecked m ((List.range (min m.rows m.columns)).map fun i => (i, i))
+
+/-! ### equality and clone (mod.rs: `impl PartialEq for Matrix`, `impl Clone for Matrix`) -/
+
+/-- `PartialEq::eq`: the row counts, the column counts, then
+    `self.data.iter().zip(other.data.iter()).all(|(x, y)| x == y)` (the `zip` stops at the shorter
+    storage: only the invariant makes this an honest comparison) -/
+def eqP [BEq α] (a b : Matrix α) : Bool :=
+  if a.rows != b.rows then false
+  else if a.columns != b.columns then false
+  else (a.data.zip b.data).all fun p => p.1 == p.2
+
 /-! ### operations as data, histories -/
 
 /-- The operation alphabet of C11. -/
@@ -417,6 +458,100 @@ def run (m : Matrix α) : List (Op α) → Matrix α
 def runTrace (m : Matrix α) : List (Op α) → List Bool
   | [] => []
   | op :: ops => (exec m op).panic.isSome :: runTrace (exec m op).state ops
+
+/-! ### user code that panics part way: closures and iterators (`XOp`)
+
+  The closure-taking operations call user code once per element, the `_with` forms call the
+  iterator's `next`.  `XOp` adds, beside every ordinary operation, the variants in which that user
+  code panics on its `k`-th call (0-based).  What the caller that caught the panic keeps:
+  * `map_mut` (mod.rs:1282): `for value in self.data.iter_mut() { *value = f(value.clone()) }` —
+    the elements before the `k`-th are already mapped, the others are not; the size is untouched.
+  * `map_mut_with_index` (mod.rs:1292): the same along the row-major `&mut` iterator.
+  * `map`, `map_with_index` (allocating): `self` is never touched.
+  * `insert_row_with` / `insert_column_with` (after fixes E-02 / E-04): the values are taken out of
+    the iterator (`take(n).collect()`, i.e. `min(n, len + 1)` calls of `next`) before anything is
+    modified, so a panicking `next` leaves the matrix untouched. -/
+
+/-- `for value in data.iter_mut() { *value = f(value.clone()) }` where `f` panics on the call
+    after `k` successful ones -/
+def mapMutLoop (f : α → α) : Nat → List α → List α × Option PanicKind
+  | _, [] => ([], none)
+  | 0, x :: xs => (x :: xs, some .explicit)
+  | k + 1, x :: xs =>
+    let r := mapMutLoop f k xs
+    (f x :: r.1, r.2)
+
+/-- `map_mut` with a closure that panics on its `k`-th call -/
+def mapMutPanic (m : Matrix α) (f : α → α) (k : Nat) : Res α :=
+  let r := mapMutLoop f k m.data
+  ⟨{ m with data := r.1 }, r.2⟩
+
+/-- the `for_each` over the indexed row-major `&mut` iterator, the closure panicking on the call
+    after `k` successful ones -/
+def mapIdxLoop (columns : Nat) (f : α → Nat → Nat → α) :
+    Nat → List (Nat × Nat) → List α → List α × Option PanicKind
+  | _, [], data => (data, none)
+  | 0, _ :: _, data => (data, some .explicit)
+  | k + 1, ij :: rest, data =>
+    mapIdxLoop columns f k rest (data.modify (ij.2 + ij.1 * columns) (fun x => f x ij.1 ij.2))
+
+/-- `map_mut_with_index` with a closure that panics on its `k`-th call -/
+def mapMutWithIndexPanic (m : Matrix α) (f : α → Nat → Nat → α) (k : Nat) : Res α :=
+  let r := mapIdxLoop m.columns f k (indexPairs m.rows m.columns) m.data
+  ⟨{ m with data := r.1 }, r.2⟩
+
+/-- `map` with a closure that panics on its `k`-th call: called once per stored element -/
+def mapPanic (m : Matrix α) (f : α → α) (k : Nat) : Res α :=
+  if k < m.data.length then ⟨m, some .explicit⟩ else m.mapAlloc f
+
+/-- `map_with_index` with a closure that panics on its `k`-th call: called once per `(i, j)` of
+    the size -/
+def mapWithIndexPanic (m : Matrix α) (f : α → Nat → Nat → α) (k : Nat) : Res α :=
+  if k < (indexPairs m.rows m.columns).length then ⟨m, some .explicit⟩ else m.mapWithIndex f
+
+/-- the number of `next` calls `values.take(n).collect()` makes on an iterator holding `len` values -/
+def nextCalls (n len : Nat) : Nat := if n ≤ len then n else len + 1
+
+/-- `insert_row_with` with an iterator whose `next` panics on its `k`-th call -/
+def insertRowWithPanic (m : Matrix α) (row : Nat) (values : List α) (k : Nat) : Res α :=
+  if row ≤ m.rows then
+    if k < nextCalls m.columns values.length then ⟨m, some .explicit⟩ else m.insertRowWith row values
+  else ⟨m, some .explicit⟩
+
+/-- `insert_column_with` with an iterator whose `next` panics on its `k`-th call -/
+def insertColumnWithPanic (m : Matrix α) (column : Nat) (values : List α) (k : Nat) : Res α :=
+  if column ≤ m.columns then
+    if k < nextCalls m.rows values.length then ⟨m, some .explicit⟩
+    else m.insertColumnWith column values
+  else ⟨m, some .explicit⟩
+
+/-- Operations, including those whose user-supplied closure / iterator panics part way. -/
+inductive XOp (α : Type) where
+  | op (o : Op α)
+  | mapMutPanic (f : α → α) (k : Nat)
+  | mapMutWithIndexPanic (f : α → Nat → Nat → α) (k : Nat)
+  | mapPanic (f : α → α) (k : Nat)
+  | mapWithIndexPanic (f : α → Nat → Nat → α) (k : Nat)
+  | insertRowWithPanic (row : Nat) (values : List α) (k : Nat)
+  | insertColumnWithPanic (column : Nat) (values : List α) (k : Nat)
+
+def xexec (m : Matrix α) : XOp α → Res α
+  | .op o => m.exec o
+  | .mapMutPanic f k => m.mapMutPanic f k
+  | .mapMutWithIndexPanic f k => m.mapMutWithIndexPanic f k
+  | .mapPanic f k => m.mapPanic f k
+  | .mapWithIndexPanic f k => m.mapWithIndexPanic f k
+  | .insertRowWithPanic row values k => m.insertRowWithPanic row values k
+  | .insertColumnWithPanic column values k => m.insertColumnWithPanic column values k
+
+/-- histories over `XOp` -/
+def xrun (m : Matrix α) : List (XOp α) → Matrix α
+  | [] => m
+  | x :: xs => xrun (xexec m x).state xs
+
+def xrunTrace (m : Matrix α) : List (XOp α) → List Bool
+  | [] => []
+  | x :: xs => (xexec m x).panic.isSome :: xrunTrace (xexec m x).state xs
 
 /-! ### every public constructor (mod.rs:80-272, 1207-1229, 1753-1789) -/
 
